@@ -48,6 +48,64 @@ type srelayWorld struct {
 	reqSeen  map[int]map[relayPair]bool // per relay node: authenticated requests (X asked for Y)
 	respSeen map[int]map[relayPair]bool // per relay node: authenticated responses (Y answered for X)
 	recs     map[*HostInfo]map[uint32]Relay
+	chasing  bool // a byzantine-chase event is queued
+}
+
+// byzantineChase: a certified third peer X (neither p nor q) sends relay R a CreateRelayResponse that names the relay
+// index of a record R still holds in state Requested (the relay has asked q on p's behalf and waits for q's answer).
+func (w *srelayWorld) byzantineChase(R *simNode, p, q netip.Addr) {
+	tp := w.tp
+	if !R.alive {
+		return
+	}
+	var xs []*simNode
+	for _, n := range w.nodes {
+		if n != R && n.alive && !slices.Contains(n.f.myVpnAddrs, p) && !slices.Contains(n.f.myVpnAddrs, q) {
+			if hi := n.f.hostMap.QueryVpnAddr(R.vpnAddr()); hi != nil && hi.ConnectionState != nil {
+				xs = append(xs, n)
+			}
+		}
+	}
+	if len(xs) == 0 {
+		return
+	}
+	X := xs[tp.Choose(len(xs))]
+	hi := X.f.hostMap.QueryVpnAddr(R.vpnAddr())
+	// records X has nothing to do with: neither kept on R's tunnel to X (there X is the rightful answerer, whatever
+	// addresses its message names — nebula resolves by index) nor joining anybody with X
+	var idxs []uint32
+	for _, h := range sortedHostInfos(R.f.hostMap) {
+		mine := false
+		for _, a := range h.vpnAddrs {
+			if slices.Contains(X.f.myVpnAddrs, a) {
+				mine = true
+			}
+		}
+		if mine {
+			continue
+		}
+		for _, r := range h.relayState.CopyAllRelayFor() {
+			if r.State == Requested && !slices.Contains(X.f.myVpnAddrs, r.PeerAddr) {
+				idxs = append(idxs, r.LocalIndex)
+			}
+		}
+	}
+	if len(idxs) == 0 {
+		return
+	}
+	msg := NebulaControl{Type: NebulaControl_CreateRelayResponse, InitiatorRelayIndex: idxs[tp.Choose(len(idxs))], ResponderRelayIndex: uint32(1 + tp.Choose(1<<20)),
+		RelayFromAddr: netAddrToProtoAddr(p), RelayToAddr: netAddrToProtoAddr(q)}
+	if tp.Chance(1, 3) {
+		msg.RelayToAddr = netAddrToProtoAddr(X.vpnAddr())
+	}
+	b, err := msg.Marshal()
+	if err != nil {
+		return
+	}
+	w.rc.Logf("t=%v byzantine chase n%d -> n%d: CreateRelayResponse from=%v to=%v initIdx=%d", w.now, X.idx, R.idx, p, q, msg.InitiatorRelayIndex)
+	X.f.SendMessageToHostInfo(header.Control, 0, hi, b, make([]byte, 12), make([]byte, mtu))
+	w.stats["fault.byzantine"]++
+	w.stats["fault.byzantine.chase-response"]++
 }
 
 type capturedInner struct {
@@ -415,6 +473,15 @@ func (w *srelayWorld) recordControl(to *simNode, d *simDatagram) {
 			for _, s := range sender {
 				w.respSeen[to.idx][relayPair{from, s}] = true
 			}
+		} else if w.focus == "C39" && !w.chasing && w.tp.Chance(1, 3) {
+			// a fault placed right after the membership change: while the relay waits for the target's answer, a
+			// third certified peer answers in its place, naming the relay index the relay has just allocated
+			R, p, q := to, from, target
+			w.chasing = true
+			w.after(0, "byzantine-chase", func() {
+				w.chasing = false
+				w.byzantineChase(R, p, q)
+			})
 		}
 	case NebulaControl_CreateRelayResponse:
 		// Y (authenticated sender) confirms the relay for from
@@ -547,6 +614,24 @@ func (w *srelayWorld) checkRelayRecords(nd *simNode, ev string) bool {
 					w.fail("C39", "relay-record-mutated", "node %d after %s: relay record %d of tunnel %v changed identity: type %d->%d peer %v->%v", nd.idx, ev, idx, h.vpnAddrs, p.Type, r.Type, p.PeerAddr, r.PeerAddr)
 					return false
 				}
+				if r.Type == ForwardingType && p.State != Established && r.State == Established {
+					// the onward leg counts as established only once the OTHER end has answered: an authenticated
+					// CreateRelayResponse (or the consent variant above) from the peer this record joins the tunnel with
+					answered := false
+					for _, s := range h.vpnAddrs {
+						if w.respSeen[nd.idx][relayPair{s, r.PeerAddr}] || w.respSeen[nd.idx][relayPair{r.PeerAddr, s}] {
+							answered = true
+						}
+						// (crossing requests: the other end asked for this tunnel's peer itself)
+						if w.reqSeen[nd.idx][relayPair{r.PeerAddr, s}] {
+							answered = true
+						}
+					}
+					if !answered {
+						w.fail("C39", "relay-established-without-answer", "node %d after %s: forwarding relay record %d (tunnel %v <-> %v) became Established although neither end has sent this node a CreateRelayResponse for the other", nd.idx, ev, idx, h.vpnAddrs, r.PeerAddr)
+						return false
+					}
+				}
 				if p.State != PeerRequested && r.State == PeerRequested {
 					w.fail("C39", "relay-state-regressed", "node %d after %s: relay record %d of tunnel %v went from state %d back to PeerRequested", nd.idx, ev, idx, h.vpnAddrs, p.State)
 					return false
@@ -634,9 +719,23 @@ func (w *srelayWorld) byzantineControl(endpoints []int) {
 	} else if tp.Chance(1, 2) {
 		// an index of the RECEIVER's relay table, whoever owns it (relay indexes travel in clear on the wire):
 		// a response naming somebody else's record must not complete it
-		R.f.hostMap.RLock()
-		keys := sortedU32(R.f.hostMap.Relays)
-		R.f.hostMap.RUnlock()
+		var keys []uint32
+		for _, h := range sortedHostInfos(R.f.hostMap) {
+			mine := false
+			for _, a := range h.vpnAddrs {
+				if slices.Contains(X.f.myVpnAddrs, a) {
+					mine = true // on R's tunnel to X itself X is a rightful party (nebula resolves by index)
+				}
+			}
+			if mine {
+				continue
+			}
+			for _, r := range h.relayState.CopyAllRelayFor() {
+				if !slices.Contains(X.f.myVpnAddrs, r.PeerAddr) {
+					keys = append(keys, r.LocalIndex)
+				}
+			}
+		}
 		if len(keys) > 0 {
 			msg.InitiatorRelayIndex = keys[tp.Choose(len(keys))]
 			w.stats["fault.byzantine.foreign-relay-index-in-control"]++
